@@ -53,8 +53,7 @@ REF_LAWS = ["RelThatLaw", "RelTLaw", "NonRelLaw", "RelIsNonRelOfScaledK", "RelSy
             "NonRelUnitary", "UnitaryFormsAgree", "NonRelFLaw", "FViaT", "RelFhatLaw", "RelFLaw", "FrelClosed"]
 
 MACHINERY_CLAUSES = {"lattice-point", "order", "K-logged", "rho-logged", "P-logged", "budget", "class", "record-kind",
-                     "run-open", "run-complete", "run-closed", "param-args", "pparam-args", "spec-symmetric", "compose-maps",
-                     "obs-precondition"}
+                     "run-open", "run-complete", "run-closed", "param-args", "pparam-args", "spec-symmetric", "obs-precondition"}
 MECHANISM = {"That(1-i.rho.K)=K", "T=sqrt(rho)*.That.sqrt(rho)", "T(1-iK)=K"}
 
 
@@ -465,6 +464,9 @@ def run(chk, replay=None):
                                       f"channel c (channel masses m_a[c], m_b[c]); numeric difference {diff:.3g}", {"kind": "param", "job": job})
                     else:
                         chk.spec_drift(f"{where}(i={rec['i']}, j={rec['j']}) has an unexpected term shape ({rec['t1'].get('why', 'bag differs')}) but equals the expected formula numerically")
+            elif rec["k"] == "compose" and names == {"compose-maps"}:
+                chk.spec_drift(f"{full_name(rec['cls'])}.formulate(parametrize=False) (n={rec['n']}) does not contain one symbol per K_ij / rho_i slot "
+                               f"(K slots {rec['kmap']}, rho {rec['rmap']}): composition not checked for it")
             elif rec["k"] == "compose":
                 job = [rec["cls"], rec["n"], rec["np"], bool(rec["flag"]), rec["L"], rec["d"], rec["X"], chk.seed]
                 chk.violation(f"{full_name(rec['cls'])}.formulate:not-skeleton-of-parametrization",
